@@ -42,6 +42,7 @@ for _w in ("i8", "i16", "i32", "i64", "i128", "u8", "u16", "u32", "u64", "u128")
     JSON_ARR["l_" + _w] = [b'[1, 2, 3]', b'[]', b'[0]', b'[127, 100]' if _w.endswith("8") else b'[1000, 20000]'] + ([b'[-1, -2]'] if _w.startswith("i") else [])
 
 REQ = [b"GET /index.html?x=1 HTTP/1.1\r\nHost: localhost\r\nUser-Agent: a\r\nAccept: */*\r\n\r\n",
+       b"POST /up HTTP/1.1\r\nHost: h\r\nTransfer-Encoding: chunked\r\n\r\n5\r\nhello\r\nFFFFFFFFFFFFFFFF;x=1\r\nworld\r\n0\r\nX-T: 1\r\n\r\n",
        b"POST /form HTTP/1.1\r\nHost: h\r\nContent-Type: application/x-www-form-urlencoded\r\nContent-Length: 7\r\n\r\na=b&c=d",
        b"OPTIONS * HTTP/1.0\r\n\r\n"]
 RESP = [b"HTTP/1.1 200 OK\r\nContent-Type: text/plain\r\nContent-Range: bytes 0-5/5\r\nContent-Length: 5\r\n\r\nhello",
